@@ -303,8 +303,32 @@ def find(t: Any, pred: Callable[[tuple], bool]) -> List[tuple]:
     return [s for s in subterms(t) if isinstance(s, tuple) and s and isinstance(s[0], str) and pred(s)]
 
 
+def bool_atoms(t: Any, out: Optional[List[tuple]] = None) -> List[tuple]:
+    """atomic predicates of a value/boolean term: descends only through ite / and / or / not / cases"""
+    out = [] if out is None else out
+    if not isinstance(t, tuple) or not t:
+        return out
+    h = t[0]
+    if h in ("and", "or"):
+        for x in t[1]:
+            bool_atoms(x, out)
+    elif h == "not":
+        bool_atoms(t[1], out)
+    elif h == "ite":
+        for x in t[1:]:
+            bool_atoms(x, out)
+    elif h == "cases":
+        for c, v in t[1]:
+            bool_atoms(c, out)
+            bool_atoms(v, out)
+    elif h in ("cmp", "eq", "ne", "in", "cmpx", "strmatch", "notnull", "truthy", "hascol", "dtypetest"):
+        if t not in out:
+            out.append(t)
+    return out
+
+
 def replace(t: Any, mapping: Dict[Any, Any]) -> Any:
-    if t in mapping if isinstance(t, tuple) else False:
+    if isinstance(t, tuple) and t in mapping:
         return mapping[t]
     if isinstance(t, tuple):
         return tuple(replace(x, mapping) for x in t)
@@ -330,6 +354,12 @@ def renorm(t: Any) -> Any:
         return mk_lin(d, t[2])
     if h == "set":
         return ("set", tuple(sorted(set(renorm(x) for x in t[1]), key=_key)))
+    if h == "not" and len(t) == 2:
+        return not_(renorm(t[1]))
+    if h == "ite" and len(t) == 4:
+        return ite(renorm(t[1]), renorm(t[2]), renorm(t[3]))
+    if h == "cmp" and len(t) == 3:
+        return cmp(t[1], renorm(t[2]), C(0))
     if h in ("eq", "ne") and len(t) == 3:
         x, y = sorted((renorm(t[1]), renorm(t[2])), key=_key)
         return (h, x, y)
